@@ -210,6 +210,8 @@ pub struct RunOutcome {
     pub events: usize,
     pub stats: Vec<Arc<ProbeStats>>,
     pub graph: Option<Graph>,
+    /// Times the watcher thread held the VectorSink's data guard during the run.
+    pub sink_looks: u64,
 }
 
 fn analyse_log(log: &[rec::Rec]) -> (u64, u64, u64) {
@@ -275,7 +277,28 @@ pub fn run_graph(built: BuiltGraph, order: &[usize], mt: bool, delay_seed: u64, 
     let token = if mt { mtg.cancel_token() } else { stg.cancel_token() };
     *CANCEL_TOKEN.lock().unwrap() = Some(token.clone());
     let mut mon = Monitor::start(stats.clone(), token, min_calls, Duration::from_secs(120));
+    // A second thread watching the VectorSink through its hook: holds the data
+    // guard for 20-400 us at a time, as a test or UI thread would.
+    let watch_stop = Arc::new(AtomicBool::new(false));
+    let watcher = sink.watcher().map(|w| {
+        let stop = watch_stop.clone();
+        let mut r = Rng::new(delay_seed ^ 0x57A7C4);
+        std::thread::Builder::new()
+            .name("verif-sink-watcher".into())
+            .spawn(move || {
+                let mut looks = 0u64;
+                while !stop.load(Ordering::SeqCst) {
+                    w(Duration::from_micros(20 + r.below(380) as u64));
+                    looks += 1;
+                    std::thread::sleep(Duration::from_micros(10 + r.below(200) as u64));
+                }
+                looks
+            })
+            .unwrap()
+    });
     let result = catch(|| if mt { mtg.run() } else { stg.run() }).map(|r| r.map_err(|e| format!("{e}")));
+    watch_stop.store(true, Ordering::SeqCst);
+    let sink_looks = watcher.map(|h| h.join().unwrap_or(0)).unwrap_or(0);
     mon.finish();
     DELAY_SEED.store(0, Ordering::SeqCst);
     rec::set_yield_handler(None);
@@ -314,6 +337,7 @@ pub fn run_graph(built: BuiltGraph, order: &[usize], mt: bool, delay_seed: u64, 
         events: log.len(),
         stats,
         graph: if mt { None } else { Some(stg) },
+        sink_looks,
     }
 }
 
@@ -438,7 +462,7 @@ fn c05_case(c: &GCase, rep: &mut Report) -> Vec<(String, String)> {
 /// Block types that, on the pinned tree, answer WaitForStream/WaitForFunc/EOF from a
 /// call in which they moved data (by design of their work()): the recorded C06
 /// finding is about exactly these in the deciding pass.
-const KNOWN_MOVERS: &[&str] = &["CollectSink", "Delay", "FftFilter", "FftFilterFloat", "RationalResampler", "VectorSource"];
+const KNOWN_MOVERS: &[&str] = &["CollectSink", "VectorSink", "Delay", "FftFilter", "FftFilterFloat", "RationalResampler", "VectorSource"];
 
 /// Executable model of the termination rule that the known finding is about:
 /// call every live block in add order; stop after a pass in which nobody
@@ -511,6 +535,10 @@ fn c06_case(c: &GCase, rep: &mut Report) -> Vec<(String, String)> {
     *FATAL_CTX.lock().unwrap() = Some(("C06".into(), c.to_json(&p)));
     let mut o = run_graph(built, &order, false, 0, 64);
     rep.count("graph_runs", 1);
+    if o.sink_looks > 0 {
+        rep.count("runs_with_watched_vector_sink", 1);
+        rep.count("sink_guard_holds_during_runs", o.sink_looks);
+    }
     rep.count("events", o.events as u64);
     rep.count("ring_wraps", o.wraps);
     rep.distinct(hmix(c.prog_seed, fnv_str(&format!("{order:?}"))));
@@ -663,7 +691,12 @@ fn c07_build(c: &C07Case) -> BuiltGraph {
     let stream_bytes = *rng.pick(&[4096usize, 4096, 16384, 0]);
     rec::stream_size(stream_bytes);
     let mut blocks: Vec<(Box<dyn Block + Send>, Arc<ProbeStats>)> = Vec::new();
-    let len = rng.range(1, 20_000);
+    // Every repetition of a VectorSource carries marker tags, and the derive
+    // macro's sync blocks filter the whole tag list once per sample: a backlog
+    // of a full default-size (4 MB) stream of tiny repetitions makes one
+    // work() call take minutes (6 s were observed with 5671-byte repetitions).
+    // That is a cost matter no property speaks about; keep it out of the way.
+    let len = if stream_bytes == 0 { rng.range(50_000, 200_000) } else { rng.range(1, 20_000) };
     let data = crate::duts::gen_bytes(&mut rng, len);
     let rep = if c.infinite { Repeat::infinite() } else { Repeat::finite(rng.range(1, 3) as u64) };
     let (s, mut w) = VectorSourceBuilder::new(data).repeat(rep).build();
@@ -827,8 +860,8 @@ fn c07_case(c: &C07Case, rep: &mut Report) -> Vec<(String, String)> {
 pub fn main(opts: &Opts, prop: &str) -> Report {
     let mut rep = Report::new(prop);
     rep.rule = match prop {
-        "C05" => "generated graph programs (chains, tee/merge diamonds, rate changers, packet stages; finite VectorSource of 0..5 capacities; streams of 1,2,4,16 pages or default) run on MTGraph in seeded add orders with seeded PCT-style delays at yield hooks (incl. >100 ms sleeps so wait time-outs fire); termination decided by a logical stuck rule, sink compared with the harness's own sequential reference executor; distinct = (program, interleaving signature of the global produce/consume order)".into(),
-        "C06" => "same generator on the single-threaded Graph; add orders forward, reverse and random; after run() returns Ok every block is called again through a hook accessor and no data may move (quiescence probe), then the sink is compared with the reference; early returns are classified by whether the deciding pass contained a data-moving call with a non-Again verdict; distinct = (program, add order)".into(),
+        "C05" => "generated graph programs (chains, tee/merge diamonds, rate changers, packet stages; CollectSink or a VectorSink watched by a second thread; finite VectorSource of 0..5 capacities; streams of 1,2,4,16 pages or default) run on MTGraph in seeded add orders with seeded PCT-style delays at yield hooks (incl. >100 ms sleeps so wait time-outs fire); termination decided by a logical stuck rule, sink compared with the harness's own sequential reference executor; distinct = (program, interleaving signature of the global produce/consume order)".into(),
+        "C06" => "same generator on the single-threaded Graph (a quarter of the programs end in the library's VectorSink while a second thread keeps taking its Hook::data() guard for 20-400 us at a time); add orders forward, reverse and random; after run() returns Ok every block is called again through a hook accessor and no data may move (quiescence probe), then the sink is compared with the reference; early returns are classified by whether the deciding pass contained a data-moving call with a non-Again verdict; distinct = (program, add order)".into(),
         _ => "chains of 1-5 blocks behind finite and infinite sources on both runners; cancellation from an outside thread after a seeded delay, from the hook callback at the k-th yield event of whichever thread gets there, and from inside a block's work(); a failing block at every position failing on call k in {1,2,5,50}; distinct = (kind, runner, cancellation site or failure position, k)".into(),
     };
     rep.assume("blocks in generated graphs are deterministic functions of stream state and peer liveness; stuck = no data event and no block exit while every live block was called N more times");
